@@ -247,6 +247,41 @@ class SeqMap:
         self.ctx = ctx
 
 
+class GhostMap:
+    """A dict known only through ghost functions has(k)/get(k) (e.g. AliasRewriter.replacements)."""
+
+    def __init__(self, has_fn, get_fn, hashable=None, on_get=None):
+        self.has_fn = has_fn
+        self.get_fn = get_fn
+        self.hashable = hashable
+        self.on_get = on_get
+
+    def _key(self, E, path, k):
+        t = E.to_pv(k)
+        if self.hashable is not None:
+            if not E.branch(path, self.hashable(t)):
+                E.throw(path, "TypeError", "unhashable type")
+        return t
+
+    def contains(self, E, path, k):
+        t = self._key(E, path, k)
+        c = z3.simplify(self.has_fn(t))
+        if z3.is_true(c):
+            return True
+        if z3.is_false(c):
+            return False
+        return SBool(c)
+
+    def getitem(self, E, path, k):
+        t = self._key(E, path, k)
+        if not E.branch(path, self.has_fn(t)):
+            E.throw(path, "KeyError", k)
+        v = self.get_fn(t)
+        if self.on_get is not None:
+            self.on_get(E, path, t, v)
+        return E.from_pv(v, path)
+
+
 class Module:
     def __init__(self, name):
         self.name = name
@@ -288,6 +323,8 @@ class Path:
         self.solver.set("rlimit", engine.rlimit_feas)
         self.calls = 0
         self.sub_roots = {}             # z3 const id -> True : terms structurally below the input
+        self.unfolded = set()
+        self.insts = []                 # defining-equation instances added for pc (deffun.py)
 
     def assume(self, cond):
         if isinstance(cond, bool):
@@ -301,6 +338,10 @@ class Path:
             raise Infeasible()
         self.pc.append(cond)
         self.solver.add(cond)
+        from .deffun import unfold_closure
+        for inst in unfold_closure([cond], rounds=3, done=self.unfolded):
+            self.insts.append(inst)
+            self.solver.add(inst)
 
     def feasible(self, cond=None):
         if cond is not None:
@@ -354,7 +395,7 @@ class Path:
     def oblige(self, clause, goal, info=None):
         if isinstance(goal, bool):
             goal = z3.BoolVal(goal)
-        self.obligations.append(Obligation(clause, list(self.pc), goal, info))
+        self.obligations.append(Obligation(clause, list(self.pc) + list(self.insts), goal, info))
 
 
 # =========================================================================================
@@ -1548,6 +1589,8 @@ class Engine:
         raise Unsupported(f"`is` on {type(l).__name__}, {type(r).__name__}")
 
     def py_in(self, path, x, c):
+        if isinstance(c, GhostMap):
+            return c.contains(self, path, x)
         if isinstance(c, tuple) or (isinstance(c, ListObj) and c.is_concrete()):
             items = list(c) if isinstance(c, tuple) else c.content
             conds = []
@@ -1635,6 +1678,8 @@ class Engine:
                 self.throw(path, "IndexError", "list index out of range")
             idx = z3.IntVal(k) if k >= 0 else L + k
             return o.instantiate(self, path, z3.simplify(o.seq_term[idx]))
+        if isinstance(o, GhostMap):
+            return o.getitem(self, path, k)
         if isinstance(o, DictObj):
             if isinstance(k, (SStr, Sym)):
                 return self.dict_lookup_symbolic(path, o, k)
@@ -1699,8 +1744,16 @@ class Engine:
                 o = self.from_pv(self.U.strv(self.PV.s(o.term)))
             elif tag == "NoneV" or tag.startswith("N_"):
                 self.throw(path, "TypeError", "object is not subscriptable")
+            elif tag == "ListV":
+                o = ListObj(self.PV.items(o.term), fresh=False)
+            elif tag == "TupleV":
+                return self.from_pv(self.U.tuplev(self._seq_slice(self.PV.titems(o.term), lo, hi)))
             else:
                 raise Unsupported(f"slice of {tag}")
+        if isinstance(o, ListObj) and all(x is None or isinstance(x, int) for x in (lo, hi)):
+            return ListObj(self._seq_slice(self.seq_term(o), lo, hi))
+        if isinstance(o, SymTuple) and all(x is None or isinstance(x, int) for x in (lo, hi)):
+            return SymTuple(self._seq_slice(o.seq, lo, hi))
         if isinstance(o, str):
             return o[lo:hi]
         if isinstance(o, SStr):
@@ -1720,6 +1773,19 @@ class Engine:
             res = z3.SubString(t, a, z3.If(b - a < 0, z3.IntVal(0), b - a))
             return SStr([Atom(res, ("slice", o, lo, hi))])
         raise Unsupported(f"slice of {type(o).__name__}")
+
+    def _seq_slice(self, seq, lo, hi):
+        L = z3.Length(seq)
+
+        def norm(x, default):
+            if x is None:
+                return default
+            if x >= 0:
+                return z3.If(L < x, L, z3.IntVal(x))
+            return z3.If(L + x < 0, z3.IntVal(0), L + x)
+        a = norm(lo, z3.IntVal(0))
+        b = norm(hi, L)
+        return z3.simplify(z3.SubSeq(seq, a, z3.If(b - a < 0, z3.IntVal(0), b - a)))
 
     def ex_Lambda(self, path, frame, e):
         fact = {"qualname": frame.fref.qualname + ".<lambda>", "module": frame.module, "name": "<lambda>",
